@@ -28,3 +28,34 @@ pub fn now_ns() -> u64 {
         .map(|d| d.as_nanos() as u64)
         .unwrap_or(0)
 }
+
+/// Confirm-by-repeat (DESIGN.md §2.5): a deviation whose signature is timing-dependent is a
+/// violation only if the same case deviates with the same signature in every one of `n`
+/// immediate re-executions (each in a fresh child, by the caller's `rerun`); otherwise it is
+/// recorded as transient and the case passes.
+pub fn confirm_repeat(
+    mut o: crate::Outcome,
+    is_timing: impl Fn(&str) -> bool,
+    rerun: impl Fn() -> crate::Outcome,
+    n: usize,
+) -> crate::Outcome {
+    let Some((sig, _)) = o.fail.clone() else {
+        return o;
+    };
+    if !is_timing(&sig) {
+        return o;
+    }
+    for _ in 0..n {
+        let r = rerun();
+        match &r.fail {
+            Some((s2, _)) if *s2 == sig => {}
+            _ => {
+                eprintln!("[timing] transient deviation (did not repeat, not a violation): {sig}");
+                o.fail = None;
+                o.transient = true;
+                return o;
+            }
+        }
+    }
+    o
+}
